@@ -599,10 +599,12 @@ def configs(tier: str):
                     if B == 3 and (n_sub >= 3 and sel is not None and len(sel) < n_sub):
                         continue
                     for failures in ('raise', 'ignore'):
-                        for t, offset in ((1, 'zero'), (-1, 'zero'), (0, 'sym')):
+                        for t, offset in ((1, 'zero'), (-1, 'zero'), (0, 'sym'), (-1, 'sym'), (-2, 'sym')):
                             if offset == 'sym' and (failures == 'ignore' or B > 2 or (sel is not None and n_sub > 1 and len(sel) != 1)):
                                 continue
-                            if t == -1 and (own or failures == 'ignore'):
+                            if t < 0 and offset == 'sym' and (B > 1 or n_sub > 2):
+                                continue     # a negative position with a symbolic offset: short loops suffice
+                            if t == -1 and offset == 'zero' and (own or failures == 'ignore'):
                                 continue
                             out.append(cfg8(n_sub=n_sub, B=B, own=own, select=sel, failures=failures, t=t, offset=offset))
     # HISTORIES: the linker has solved other periods with other selections before (and may have been copied since)
